@@ -82,6 +82,14 @@ def PhraseBody (body : Str) : Prop := ∀ c ∈ body, c ≠ '"' ∧ c ≠ '\\'
 def phraseOpd (body : Str) : Opd :=
   ⟨'"' :: (body ++ ['"']), .leaf (.literal none body .double 0 false), 1⟩
 
+/-- `name:word` as an operand -/
+def fieldWordOpd (f w : Str) : Opd :=
+  ⟨f ++ ':' :: w, .leaf (.literal (some f) w .none 0 false), 1⟩
+
+/-- `name:"phrase"` as an operand -/
+def fieldPhraseOpd (f body : Str) : Opd :=
+  ⟨f ++ ':' :: '"' :: (body ++ ['"']), .leaf (.literal (some f) body .double 0 false), 1⟩
+
 /-- a parenthesised operand list as an operand -/
 def groupOpd (lead : Nat) (occ : Option Occur) (o : Opd) (more : List PItem) (k : Nat) : Opd :=
   ⟨'(' :: printList lead occ o more k [')'], listTree occ o more, o.cost + needRest more + 3⟩
